@@ -376,14 +376,14 @@ func run(c *hl.Ctx) error {
 		return nil
 	}
 	r := c.Rand()
-	for i := c.Pick(3000, 150000); i > 0; i-- {
+	for i := c.Pick(3000, 60000); i > 0; i-- {
 		c.Emit(runUnit(genUnit(r, c)))
 	}
-	for i := c.Pick(400, 20000); i > 0; i-- {
+	for i := c.Pick(400, 6000); i > 0; i-- {
 		c.Count("e2e:fake")
 		c.Emit(runE2E(genText(r, c), "fake", r.Int63n(1<<40)))
 	}
-	for i := c.Pick(80, 3000); i > 0; i-- {
+	for i := c.Pick(80, 1000); i > 0; i-- {
 		c.Count("e2e:dagre")
 		c.Emit(runE2E(genText(r, c), "dagre", 0))
 	}
